@@ -40,7 +40,8 @@ class TrainSim(Sim):
     PROBES = ["epochs_0", "epochs_3", "validation_loader", "no_validation", "evaluator_none", "evaluator_binary", "evaluator_multi_class",
               "evaluator_categorical", "callback_adversarial_mode_flip", "callback_logging", "real_dataloader", "list_loader", "model_with_batchnorm",
               "model_with_dropout", "second_fit_after_fault", "fault_in_forward", "fault_in_criterion", "fault_in_callback", "fault_in_transform",
-              "test_call", "fit_twice", "adam", "sgd_momentum", "optimizer_param_outside_model", "callback_flips_child_layers", "mixed_mode_tree_before_call"]
+              "test_call", "fit_twice", "adam", "sgd_momentum", "optimizer_param_outside_model", "callback_flips_child_layers", "mixed_mode_tree_before_call",
+              "callback_grows_loader_between_epochs", "fault_in_val_criterion", "fault_in_epoch_cb", "fault_in_line", "fault_in_test"]
     RULE = ("one run = one trainer configuration (model layers, loss, optimizer, evaluator mode, loaders, callbacks) and 1-3 fit/test calls, "
             "optionally with an injected fault followed by a fault-free fit; distinct = (epochs, train batches, val batches, evaluator mode, "
             "callbacks, loader kind, model layer kinds, call sequence); non-trivial = at least one optimisation step was checked")
@@ -54,7 +55,7 @@ class TrainSim(Sim):
             "max_events": 6, "np_seed": rng.randrange(2 ** 31), "task": task, "evaluator": rng.random() < 0.75, "d": rng.randint(2, 4), "h": rng.randint(2, 5),
             "c": rng.randint(2, 4), "bn": rng.random() < 0.5, "dropout": rng.choice([None, None, 0.3, 0.5]), "batch": rng.randint(2, 5),
             "n_train": rng.randint(1, 4), "n_val": rng.choice([0, 0, 1, 2, 3]), "remainder": rng.choice([0, 0, 1]), "loader": rng.choice(["real", "list"]),
-            "opt": rng.choice(["SGD", "SGDm", "Adam", "AdamW"]), "callbacks": rng.choice(["none", "none", "log", "adversarial", "adversarial_child"]),
+            "opt": rng.choice(["SGD", "SGDm", "Adam", "AdamW"]), "callbacks": rng.choice(["none", "none", "log", "adversarial", "adversarial_child", "grow", "grow"]),
             "extra_param": rng.random() < 0.3, "tweak_between": rng.random() < 0.3,
             "faulty": rng.random() < 0.3, "acc_cb": rng.random() < 0.3,
         }
@@ -71,6 +72,8 @@ class TrainSim(Sim):
         st.pending_fault = None
         st.after_fault = False
         st.n_done = 0
+        st.kept = []           # exceptions the caller caught and keeps (their tracebacks keep the frames of the interrupted call alive)
+        st.cur = {}            # phase -> current number of batches of that loader (callbacks may grow the data between epochs)
         return st
 
     def _emit(self, st, kind, **kw):
@@ -153,7 +156,7 @@ class TrainSim(Sim):
 
         class Criterion:
             def __call__(_, outputs, labels):
-                if st.pending_fault == "criterion":
+                if st.pending_fault == "criterion" or (st.pending_fault == "val_criterion" and sim._phase_now(st) == "val"):
                     st.pending_fault = None
                     st.faults["F3.criterion_raise"] += 1
                     raise SimBodyError("criterion raised")
@@ -188,6 +191,11 @@ class TrainSim(Sim):
         train = SG.train
         if kn["evaluator"]:
             def acc_cb(y_true, y_pred):
+                if st.pending_fault == "epoch_cb":
+                    # e.g. an AUC metric on a single-class epoch
+                    st.pending_fault = None
+                    st.faults["F3.evaluator_callback_raise"] += 1
+                    raise SimBodyError("metric callback raised")
                 return [("cb_metric", np.float64(len(y_true)))]
             st.evaluator = train.Evaluator(mode=kn["task"], epoch_callback=acc_cb if kn["acc_cb"] else None)
             st.probes["evaluator_" + kn["task"].replace("-", "_")] += 1
@@ -208,6 +216,7 @@ class TrainSim(Sim):
             else:
                 y = np.eye(kn["c"], dtype=np.float32)[rs.randint(0, kn["c"], size=n)]
             return self._loader(st, X, y, nb, phase)
+        st.cur = {"train": kn["n_train"], "val": kn["n_val"]}
         st.train_loader = make(kn["n_train"], "train")
         st.val_loader = make(kn["n_val"], "val") if kn["n_val"] else None
         st.test_loader = make(max(1, kn["n_val"]), "test")
@@ -231,13 +240,30 @@ class TrainSim(Sim):
             return SG.data.DataLoader(X, y, b, transform=lambda loader, xb, yb: to_batch(xb, yb))
 
         class ListLoader:
-            def __len__(_):
-                return nb
+            def __init__(self_):
+                self_.X, self_.y = X, y
 
-            def __iter__(_):
-                for j in range(nb):
-                    yield to_batch(X[j * b:(j + 1) * b], y[j * b:(j + 1) * b])
+            def __len__(self_):
+                return len(self_.y) // b
+
+            def __iter__(self_):
+                for j in range(len(self_.y) // b):
+                    yield to_batch(self_.X[j * b:(j + 1) * b], self_.y[j * b:(j + 1) * b])
         return ListLoader()
+
+    def _grow(self, st, loader, phase):
+        """curriculum / progressive data: the callback appends one more batch to the loader it was handed"""
+        b = st.knobs["batch"]
+        loader.X = np.concatenate([np.asarray(loader.X), np.asarray(loader.X)[:b]])
+        loader.y = np.concatenate([np.asarray(loader.y), np.asarray(loader.y)[:b]])
+        st.cur[phase] += 1
+        st.probes["callback_grows_loader_between_epochs"] += 1
+
+    def _phase_now(self, st):
+        for x in reversed(st.trace):
+            if x["k"] == "batch":
+                return x["phase"]
+        return None
 
     # ------------------------------------------------------------------ generation
     def gen(self, rng, st):
@@ -247,12 +273,17 @@ class TrainSim(Sim):
             fault = None
             if kn["faulty"]:
                 fault = rng.choice([{"where": "forward", "kind": rng.choice(["alloc", "interrupt", "exit"]), "at": rng.randint(1, 30)}, {"where": "criterion"},
-                                    {"where": "callback"}, {"where": "transform"}])
+                                    {"where": "callback"}, {"where": "transform"}, {"where": "val_criterion"}, {"where": "epoch_cb"},
+                                    {"where": "line", "kind": rng.choice(["alloc", "interrupt", "exit"]), "at": int(10 ** rng.uniform(0, 4.3))},
+                                    {"where": "line", "kind": rng.choice(["alloc", "interrupt", "exit"]), "at": int(10 ** rng.uniform(0, 4.3))}])
             return {"k": "fit", "epochs": rng.choice([0, 1, 1, 2, 3]), "fault": fault}
         if st.n_calls < (3 if kn["faulty"] else rng.choice([1, 2, 3])):
             st.n_calls += 1
             if rng.random() < 0.4:
-                return {"k": "test"}
+                ev = {"k": "test"}
+                if kn["faulty"] and rng.random() < 0.4:
+                    ev["fault"] = {"where": "line", "kind": rng.choice(["alloc", "interrupt", "exit"]), "at": int(10 ** rng.uniform(0, 3.5))}
+                return ev
             return {"k": "fit", "epochs": rng.choice([1, 1, 2]), "fault": None}
         return None
 
@@ -278,6 +309,9 @@ class TrainSim(Sim):
             elif kn["callbacks"] == "adversarial_child":
                 for m in model.submodules()[1::2]:
                     m.eval()        # ... of some layers only: the root flag no longer tells the mode of the tree
+            elif kn["callbacks"] == "grow":
+                sim._grow(st, loader, "train")
+            st.trace[-1]["n_batches"] = st.cur["train"]
 
         def on_val(model, loader):
             sim._emit(st, "cb_val")
@@ -286,6 +320,9 @@ class TrainSim(Sim):
             elif kn["callbacks"] == "adversarial_child":
                 for m in model.submodules()[::2]:
                     m.train()
+            elif kn["callbacks"] == "grow" and st.cur["val"]:
+                sim._grow(st, loader, "val")
+            st.trace[-1]["n_batches"] = st.cur["val"]
         if kn["callbacks"] == "none" and not (fault and fault["where"] == "callback"):
             return None, None
         st.probes["callback_adversarial_mode_flip" if kn["callbacks"].startswith("adversarial") else "callback_logging"] += 1
@@ -313,9 +350,12 @@ class TrainSim(Sim):
         if fault:
             if fault["where"] == "forward":
                 SEAM.arm(fault["kind"], fault["at"])
+            elif fault["where"] == "line":
+                SEAM.arm_spec({"kind": fault["kind"], "seam": "line", "at": fault["at"]})
             else:
                 st.pending_fault = fault["where"]
         raised = None
+        start_cur = dict(st.cur)
         try:
             with quiet():
                 hist = st.trainer.fit(st.train_loader, epochs, validation_loader=st.val_loader, on_train_epoch=on_train, on_validation_epoch=on_val)
@@ -334,10 +374,15 @@ class TrainSim(Sim):
             fault = None
         if fired:
             st.probes["fault_in_" + fault["where"]] += 1
-            if fault["where"] == "forward":
-                st.faults["F2.kernel_" + fault["kind"]] += 1
+            if fault["where"] in ("forward", "line"):
+                st.faults[f"F2.{'kernel' if fault['where'] == 'forward' else 'line'}_{fault['kind']}"] += 1
             st.after_fault = True
-            # nothing is asserted about the interrupted call; the user recovers the model mode and goes on
+            st.kept.append(raised)          # the caller keeps the exception (error list, sys.last_traceback in a notebook)
+            # of the interrupted call only this is asserted: the global gradient mode is what it was (with-blocks unwind);
+            # then the user goes on with a fault-free call, which must satisfy the strict oracle
+            if self._grad_mode(st) != mode_before:
+                st.fail("C20.grad_mode_restored", f"after fit() was left by an exception ({fault['where']}) the global gradient mode is {self._grad_mode(st)}, "
+                        f"it was {mode_before} before the call")
             return
         if fault is None and ev.get("fault") is not None and raised is None and False:
             pass
@@ -352,14 +397,23 @@ class TrainSim(Sim):
         tr = st.trace
         nb = kn["n_train"]
         nv = kn["n_val"]
+        # batches per epoch: constant, unless a callback grew the loader at the start of the epoch (its event carries the new count)
+        cbt = [e for e in tr if e["k"] == "cb_train"]
+        cbv = [e for e in tr if e["k"] == "cb_val"]
+        nbs = [e["n_batches"] for e in cbt] if len(cbt) == epochs else [st.cur["train"]] * epochs
+        nvs = [e["n_batches"] for e in cbv] if (nv and len(cbv) == epochs) else [st.cur["val"]] * epochs
+        if kn["callbacks"] != "none" and (len(cbt) != epochs or (nv and len(cbv) != epochs)):
+            st.fail("C20.callbacks", f"on_train_epoch was called {len(cbt)} times and on_validation_epoch {len(cbv)} times in {epochs} epochs")
+        toff = [sum(nbs[:i]) for i in range(epochs + 1)]
+        voff = [sum(nvs[:i]) for i in range(epochs + 1)]
         st.probes["epochs_0" if epochs == 0 else "epochs_3" if epochs == 3 else "validation_loader" if nv else "no_validation"] += 1
         if nv: st.probes["validation_loader"] += 1
         else: st.probes["no_validation"] += 1
         if self._grad_mode(st) != mode_before:
             st.fail("C20.grad_mode_restored", f"the global gradient mode is {self._grad_mode(st)} after fit, it was {mode_before} before")
         steps = [e for e in tr if e["k"] == "step"]
-        if len(steps) != epochs * nb:
-            st.fail("C20.step_count", f"fit(epochs={epochs}) over a loader of {nb} batches performed {len(steps)} optimizer steps, expected {epochs * nb}")
+        if len(steps) != toff[-1]:
+            st.fail("C20.step_count", f"fit(epochs={epochs}) over a loader of {nbs} batches per epoch performed {len(steps)} optimizer steps, expected {toff[-1]}")
         # segment the trace by steps
         prev = 0
         for n, s in enumerate(steps):
@@ -385,15 +439,15 @@ class TrainSim(Sim):
             if len(fw) != 1:
                 st.fail("C20.one_forward_per_step", f"step #{n + 1}: {len(fw)} training forwards for one batch")
             if not fw[0]["training"]:
-                st.fail("C20.training_mode", f"step #{n + 1} (epoch {n // nb + 1}): the training forward ran with (part of) the model in eval mode "
+                st.fail("C20.training_mode", f"step #{n + 1}: the training forward ran with (part of) the model in eval mode "
                         f"(callbacks={kn['callbacks']})")
             if not fw[0]["grad_mode"]:
                 st.fail("C20.training_mode", f"step #{n + 1}: the training forward ran with gradient tracking disabled")
             st.nontrivial = True
         # validation phases
         val_fw = [e for e in tr if e["k"] == "forward" and self._phase_of(tr, e) == "val"]
-        if len(val_fw) != (epochs * nv if nv else 0):
-            st.fail("C20.validation_batches", f"{len(val_fw)} validation forwards, expected {epochs * nv}")
+        if len(val_fw) != (voff[-1] if nv else 0):
+            st.fail("C20.validation_batches", f"{len(val_fw)} validation forwards, expected {voff[-1] if nv else 0}")
         for e in val_fw:
             if e["any_training"]:
                 st.fail("C20.validation_mode", f"a validation forward ran with (part of) the model in training mode (callbacks={kn['callbacks']})")
@@ -422,20 +476,20 @@ class TrainSim(Sim):
         tl = [e for e in loss_ev if self._phase_of(tr, e) == "train"]
         vl = [e for e in loss_ev if self._phase_of(tr, e) == "val"]
         for ep in range(epochs):
-            want = float(np.mean([e["value"] for e in tl[ep * nb:(ep + 1) * nb]]))
+            want = float(np.mean([e["value"] for e in tl[toff[ep]:toff[ep + 1]]]))
             got = float(hist["loss"][ep])
             if not abs(got - want) <= 1e-5 * (abs(want) + 1):
-                st.fail("C20.epoch_loss", f"epoch {ep + 1}: reported loss {got!r}, mean of the {nb} batch losses is {want!r}")
+                st.fail("C20.epoch_loss", f"epoch {ep + 1}: reported loss {got!r}, mean of the {nbs[ep]} batch losses is {want!r}")
             if nv:
-                want = float(np.mean([e["value"] for e in vl[ep * nv:(ep + 1) * nv]]))
+                want = float(np.mean([e["value"] for e in vl[voff[ep]:voff[ep + 1]]]))
                 got = float(hist["val_loss"][ep])
                 if not abs(got - want) <= 1e-5 * (abs(want) + 1):
-                    st.fail("C20.epoch_loss", f"epoch {ep + 1}: reported val_loss {got!r}, mean of the {nv} validation batch losses is {want!r}")
+                    st.fail("C20.epoch_loss", f"epoch {ep + 1}: reported val_loss {got!r}, mean of the {nvs[ep]} validation batch losses is {want!r}")
             if kn["evaluator"]:
-                for pre, evs, k in (("", tl, nb), ("val_", vl, nv)):
-                    if not k:
+                for pre, evs, off in (("", tl, toff), ("val_", vl, voff)):
+                    if not off[-1]:
                         continue
-                    want = self._accuracy(kn["task"], evs[ep * k:(ep + 1) * k])
+                    want = self._accuracy(kn["task"], evs[off[ep]:off[ep + 1]])
                     got = float(hist[pre + "accuracy"][ep])
                     if not abs(got - want) <= 1e-9:
                         st.fail("C20.accuracy", f"epoch {ep + 1}: reported {pre}accuracy {got!r}, fraction of correct predictions under mode {kn['task']!r} is {want!r}")
@@ -499,11 +553,18 @@ class TrainSim(Sim):
         del st.trace[:]
         mode_before = self._grad_mode(st)
         d0 = self._digests(st)
+        fault = ev.get("fault")
         try:
-            with quiet():
+            with quiet(), SEAM.armed({"kind": fault["kind"], "seam": "line", "at": fault["at"]} if fault else None):
                 y_pred, y_true = st.trainer.test(st.test_loader)
-        except SimFault:
-            raise
+        except SimFault as e:
+            st.kept.append(e)
+            st.faults["F2.test_line_" + fault["kind"]] += 1
+            st.probes["fault_in_test"] += 1
+            st.after_fault = True
+            if self._grad_mode(st) != mode_before:
+                st.fail("C20.grad_mode_restored", f"after test() was left by an exception the global gradient mode is {self._grad_mode(st)}, it was {mode_before} before")
+            return
         except Exception as e:
             st.fail("C20.test_raises", f"test() raised {type(e).__name__}: {e}")
         st.probes["test_call"] += 1
